@@ -25,7 +25,10 @@
    goroutine that can pull does so at once, and RemoveBegin;RemoveClose is one step.  Both
    granularities are model checked; the Eager graph is dumped and walked for the replay.
 
-   A unit is [f, n, ok]: the n-th unit written to format f by a publisher that was current (ok).
+   A unit is [f, n, ok, k]: the n-th unit written to format f by a publisher that was current (ok); k is its
+   kind: "frame" (decoded payload present) or "frag" (an RTP packet of a frame that is still incomplete: the
+   publisher uses RTP packets and the frame spans several of them, so the unit has no payload).  Both kinds are
+   units in the sense of the statement: each goes through every subscribed reader's queue and is delivered or counted.
    Units of publishers that are not current are never queued, so they need no identity.
 
    Layer 2: the statement's formulas are written over observable histories (sequences of callbacks
@@ -43,13 +46,19 @@ CONSTANTS Formats,      \* e.g. {"f1","f2"}
           QS,           \* the values of Stream.WriteQueueSize explored (powers of two); st.q is the one in use
           MaxWrites,    \* writes per format by current publishers
           MaxStale,     \* writes through a sub-stream that is not current (total)
-          Eager
+          Eager,
+          Kinds,        \* kinds of units a publisher writes: "frame" (carries a decoded payload) and/or "frag" (an RTP
+                        \* packet of a frame that is not complete yet: UseRTPPackets publisher, no payload)
+          FragFormats,  \* formats on which "frag" units occur (video formats whose frames span several packets)
+          DevCountFramesOnly
+                        \* named deviation, FALSE = the code.  TRUE: a unit skipped on a full queue is counted only
+                        \* if it carries a payload (kind "frame"); fragments are then dropped silently
 
 VARIABLE st
 vars == <<st>>
 
 Phases == {"absent", "sub", "unsub", "closed", "stopped"}
-NoUnit == [f |-> "", n |-> 0, ok |-> FALSE]
+NoUnit == [f |-> "", n |-> 0, ok |-> FALSE, k |-> ""]
 
 Init0(q) ==
          [q     |-> q,
@@ -82,17 +91,20 @@ PullSet(s, P) ==
 Settle(s) == IF Eager THEN PullSet(s, {r \in Readers : CanPull(s, r)}) ELSE s
 Quiet(s)  == [s EXCEPT !.ev = [drop |-> {}]]
 
-WriteF(s, ss, f) ==
+WriteF(s, ss, f, k) ==
     IF ss # s.cur
     THEN [Quiet(s) EXCEPT !.nst = @ + 1]                       \* stale guard: nothing happens
-    ELSE LET u    == [f |-> f, n |-> s.nwr[f] + 1, ok |-> TRUE]
+    ELSE LET u    == [f |-> f, n |-> s.nwr[f] + 1, ok |-> TRUE, k |-> k]
              to   == s.reg[f]
              full == {r \in to : Len(s.queue[r]) >= s.q}
+             \* Reader.push: every refused unit is counted, whatever it carries
+             counted == IF DevCountFramesOnly /\ k # "frame" THEN {} ELSE full
          IN Settle([s EXCEPT
                !.nwr[f] = @ + 1,
                !.queue = [r \in Readers |-> IF r \in to \ full THEN Append(@[r], u) ELSE @[r]],
-               !.owed  = [r \in Readers |-> IF r \in to \ full THEN @[r] + 1 ELSE @[r]],
-               !.ev    = [drop |-> full]])         \* outboundFramesDiscarded.Increase()
+               \* owed = handed to the reader and not (yet) delivered, counted or thrown away by Close
+               !.owed  = [r \in Readers |-> IF r \in to \ counted THEN @[r] + 1 ELSE @[r]],
+               !.ev    = [drop |-> counted]])      \* outboundFramesDiscarded.Increase()
 
 PullF(s, r)  == PullSet(Quiet(s), {r})
 DoneF(s, r)  == Settle([Quiet(s) EXCEPT !.held[r] = NoUnit])
@@ -113,11 +125,12 @@ Began(s, t, r)   == t.held[r] # NoUnit /\ t.held[r] # s.held[r]
 Dropped(t, r)    == r \in t.ev.drop
 
 \* ------------------------------------------------------------------ actions
-\* an action is a record [a, ss, f, r, S] (unused fields: 0, "", {})
-A(name, ss, f, r, S) == [a |-> name, ss |-> ss, f |-> f, r |-> r, S |-> S]
+\* an action is a record [a, ss, f, r, S, k] (unused fields: 0, "", {}); k = kind of the unit written
+A(name, ss, f, r, S, k) == [a |-> name, ss |-> ss, f |-> f, r |-> r, S |-> S, k |-> k]
 
 Guard(s, x) ==
     CASE x.a = "Write"         -> /\ x.ss \in 1..NSS /\ x.ss <= s.cur     \* a publisher that exists(ed)
+                                  /\ x.k \in Kinds /\ (x.k = "frag" => x.f \in FragFormats)
                                   /\ IF x.ss = s.cur THEN s.nwr[x.f] < MaxWrites ELSE s.nst < MaxStale
       [] x.a = "Pull"          -> ~Eager /\ CanPull(s, x.r)
       [] x.a = "Done"          -> s.held[x.r] # NoUnit
@@ -129,7 +142,7 @@ Guard(s, x) ==
       [] x.a = "Switch"        -> s.cur < NSS
 
 Apply(s, x) ==
-    CASE x.a = "Write"         -> WriteF(s, x.ss, x.f)
+    CASE x.a = "Write"         -> WriteF(s, x.ss, x.f, x.k)
       [] x.a = "Pull"          -> PullF(s, x.r)
       [] x.a = "Done"          -> DoneF(s, x.r)
       [] x.a = "CallbackError" -> ErrF(s, x.r)
@@ -141,18 +154,18 @@ Apply(s, x) ==
 
 Do(x) == Guard(st, x) /\ st' = Apply(st, x)
 
-Write(ss, f)     == Do(A("Write", ss, f, "", {}))
-Pull(r)          == Do(A("Pull", 0, "", r, {}))
-Done(r)          == Do(A("Done", 0, "", r, {}))
-CallbackError(r) == Do(A("CallbackError", 0, "", r, {}))
-AddReader(r, S)  == Do(A("AddReader", 0, "", r, S))
-RemoveBegin(r)   == Do(A("RemoveBegin", 0, "", r, {}))
-RemoveClose(r)   == Do(A("RemoveClose", 0, "", r, {}))
-RemoveEnd(r)     == Do(A("RemoveEnd", 0, "", r, {}))
-Switch           == Do(A("Switch", 0, "", "", {}))
+Write(ss, f, k)  == Do(A("Write", ss, f, "", {}, k))
+Pull(r)          == Do(A("Pull", 0, "", r, {}, ""))
+Done(r)          == Do(A("Done", 0, "", r, {}, ""))
+CallbackError(r) == Do(A("CallbackError", 0, "", r, {}, ""))
+AddReader(r, S)  == Do(A("AddReader", 0, "", r, S, ""))
+RemoveBegin(r)   == Do(A("RemoveBegin", 0, "", r, {}, ""))
+RemoveClose(r)   == Do(A("RemoveClose", 0, "", r, {}, ""))
+RemoveEnd(r)     == Do(A("RemoveEnd", 0, "", r, {}, ""))
+Switch           == Do(A("Switch", 0, "", "", {}, ""))
 
 Init == st \in {Init0(q) : q \in QS}
-Next == \/ \E ss \in 1..NSS, f \in Formats : Write(ss, f)
+Next == \/ \E ss \in 1..NSS, f \in Formats, k \in Kinds : Write(ss, f, k)
         \/ \E r \in Readers : Pull(r)
         \/ \E r \in Readers : Done(r)
         \/ \E r \in Readers : CallbackError(r)
@@ -208,7 +221,7 @@ TypeOK == /\ st.cur \in 1..NSS
 StepOnlyOrder ==
     [][\A r \in Readers : Began(st, st', r) =>
           LET u == st'.held[r]
-              prev == [f |-> u.f, n |-> st.last[r][u.f], ok |-> TRUE]   \* the last unit of that format given to r
+              prev == [f |-> u.f, n |-> st.last[r][u.f], ok |-> TRUE, k |-> u.k]   \* the last unit of that format given to r
           IN /\ OnlyWrittenSubscribed(st'.nwr, <<u>>, st'.subs[r])
              /\ InOrderOnce(<<prev, u>>)]_vars
 StepSkipOnlyWhenFull ==
@@ -220,7 +233,7 @@ StepNoCallbackAfterEnd ==
 \* ------------------------------------------------------------------ view for the replay graph
 \* implementation state without histories (units are replaced by their formats)
 ImplView == [q |-> st.q, cur |-> st.cur, phase |-> st.phase, subs |-> st.subs,
-             queue |-> [r \in Readers |-> [k \in 1..Len(st.queue[r]) |-> st.queue[r][k].f]],
-             held |-> [r \in Readers |-> st.held[r].f],
+             queue |-> [r \in Readers |-> [i \in 1..Len(st.queue[r]) |-> <<st.queue[r][i].f, st.queue[r][i].k>>]],
+             held |-> [r \in Readers |-> <<st.held[r].f, st.held[r].k>>],
              dead |-> st.dead, nwr |-> st.nwr, nst |-> st.nst]
 =============================================================================
